@@ -253,7 +253,9 @@ def unlinkAll (w : World) (l : Lbl) : List BatchRef → World
   | [] => w
   | b :: rest => unlinkAll (emit w l (.unlink (.batch b.id))) l rest
 
-/-- `FilePersist::compact(shard, 0)` (mod.rs:487-545). -/
+/-- `FilePersist::compact(shard, 0)` (mod.rs:487-545): new batch file, then (in memory) the old references are
+    drained, then metadata, then the old files are unlinked — the FS order is unchanged by `fix: compact drains
+    meta.batches only after the new batch has been written` (that repair concerns the write-error path). -/
 def compact (w : World) (s : Name) : World :=
   let w := flush w s
   if w.failed then w else
@@ -348,6 +350,10 @@ def runOp (bufferSize : Nat) (w : World) (o : EOp) : World :=
     if w.failed then w else { w with mem := { w.mem with known := addKnown w.mem.known r } }
   | .del r ts =>
     if ts = [] then w else
+    -- delete_tuples_from (after `fix: … skips tuples of another arity, and any tuple of an unknown relation`): a
+    -- relation without a metadata entry holds nothing; the request is acknowledged `Ok(0)` before a logical time is
+    -- taken and before anything is persisted
+    if r ∉ w.mem.known then w else
     let time := w.mem.clock
     let w := { w with mem := { w.mem with clock := time + 1 } }
     let w := ensureShard w r
@@ -459,7 +465,11 @@ def stageFinish (w : World) : Option World :=
   match loadRelations w.disk w.mem.shards with
   | none => none
   | some rels =>
-    let known := (rels.filter (fun e => e.2 ≠ [])).map (·.1)
+    -- a relation is known to the knowledge graph (metadata entry, with its arity) iff its shard logged any update:
+    -- emptied relations keep an entry with 0 tuples (load_knowledge_graph_from_persist, `logged_arity`)
+    let known := w.mem.shards.filterMap (fun e => match readShard w.disk e.2 with
+      | some us => if us = [] then none else some e.1
+      | none => none)
     let maxUpper := w.mem.shards.foldl (fun a e => max a e.2.md.upper) 0
     some { w with mem := { w.mem with known := known, clock := maxUpper + 1 } }
 
